@@ -144,8 +144,8 @@ def fill(claim, na):
         "C19",
         "proof",
         "hand-written Lean 4 model of eko's interpolation basis as yadism instantiates it (block layout, areas, evaluate_x, is_below_x; generic in the number type) + theorems over every linearly ordered field via Mathlib's Lagrange interpolation + correspondence with the real eko objects + two-grid / refinement / node-displacement runs of the real code",
-        "PARTIAL for the convergence rate. Proved for every strictly increasing grid, every size N >= degree+1, every degree >= 1, linear and logarithmic mode: p_j(x_k) = delta_jk; on (x_i, x_{i+1}] evaluate_x returns the Lagrange polynomial of the block of that interval; the interpolant of a polynomial of degree <= the interpolation degree (in x resp. log x) is that polynomial everywhere in the grid; hence for such PDFs every linear prediction functional gives the same value on any two grids/degrees (prediction_grid_independent: interpolation error exactly zero, so the general error is the distance of the PDF to that span); partition of unity; the polynomial pieces below and above a node agree at the node (no jump: a requested x on a node is the limit of displaced x); is_below_x implies the basis function vanishes above. Real code: predictions for in-span PDFs from two different grids/degrees agree to 2e-7 at generic x, at nodes of one grid, 1e-9..8e-6 next to nodes, in the top and bottom intervals, LO/NLO, NC/CC/EM; factorisation-scale orders at common nodes agree order by order between a grid and its refinement (degrees 2..5); x on a node vs displaced by 1e-9; N=12,24,48 refinement and degree 3->4 converge for a smooth toy PDF.",
-        TB + "eko is external: its basis is modelled, not translated (tied by ~600 correspondence cases per quick run; eko's 2.2e-15 tolerance at the left end of a first area is modelled as equality). The rate of convergence outside the span (Lagrange remainder) is observed, not proved.",
+        "PARTIAL only for the boundedness of the convolution functional and the quadrature. Proved for every strictly increasing grid, every size N >= degree+1, every degree >= 1, linear and logarithmic mode: p_j(x_k) = delta_jk; on (x_i, x_{i+1}] evaluate_x returns the Lagrange polynomial of the block of that interval; the interpolant of a polynomial of degree <= the interpolation degree (in x resp. log x) is that polynomial everywhere in the grid; hence for such PDFs every linear prediction functional gives the same value on any two grids/degrees (prediction_grid_independent: interpolation error exactly zero, so the general error is the distance of the PDF to that span); partition of unity; the polynomial pieces below and above a node agree at the node (no jump: a requested x on a node is the limit of displaced x); is_below_x implies the basis function vanishes above. Convergence for smooth PDFs is a theorem too: for any PDF the interpolation error at t is at most (1+Lambda(t)) times its distance to the polynomials of degree <= d on the block of t (interpolation_error_bound), Lambda(t) <= (d+1)(d hmax/hmin)^(d+1) on any quasi-uniform grid whatever its size (lebesgue_function_bounded), hence over the reals (Mathlib's Taylor remainder) a PDF with (d+1)-th derivative bounded by M in the grid variable is interpolated within (1+(d+1)(d rho)^(d+1)) M (d hmax)^(d+1)/d! (refinement_converges, log_grid_refinement_converges), two adequate grids agree within the sum of their bounds (two_grids_within_accuracy), and a prediction functional bounded in the sup norm carries the bound to the prediction (prediction_converges). Real code: both proved bounds evaluated on eko's real basis (uniform and random grids, degrees 1..4); predictions for in-span PDFs from two different grids/degrees agree to 2e-7 at generic x, at nodes of one grid, 1e-9..8e-6 next to nodes, in the top and bottom intervals, LO/NLO, NC/CC/EM; factorisation-scale orders at common nodes agree order by order between a grid and its refinement (degrees 2..5); x on a node vs displaced by 1e-9; N=12,24,48 refinement and degree 3->4 converge for a smooth toy PDF.",
+        TB + "eko is external: its basis is modelled, not translated (tied by ~600 correspondence cases per quick run; eko's 2.2e-15 tolerance at the left end of a first area is modelled as equality). That each convolution functional is bounded in the sup norm (integrability of the coefficient function) is a hypothesis of prediction_converges; quadrature accuracy is observed.",
         "DESIGN.md 6/C19",
     )
     claim(
